@@ -3,11 +3,11 @@ import portcheck
 
 META = {
     "property_id": "C05",
-    "technique": "Coq refinement proofs (implemented comparison = Figures 34/35 for all data sets; lexicographic-order characterisation => selected best not worse than any candidate and order-independent; decision = Figure 33) + figure-level oracle ok_C05 evaluated in Coq on implementation traces + trace correspondence",
+    "technique": "Coq refinement proofs (implemented comparison = Figures 34/35 for all data sets; lexicographic-order characterisation => selected best not worse than any candidate and order-independent; decision = Figure 33; pairwise winner selected; C05_main: the complete oracle ok_C05 accepts the model's trace for every valid set-up and every history) + figure-level oracle ok_C05 evaluated in Coq on implementation traces + trace correspondence",
     "category": "proof",
-    "text": "Proved in Coq, for all data sets and candidate lists of any length: ds_compare never hits its unreachable arm and returns the outcome of the independently written Figures 34/35; on GM-consistent candidates not sent by the receiver's own clock the comparison is a lexicographic total order, so the selected Erbest/Ebest is a candidate, is not worse than any other candidate, and is independent of the presentation order (Permutation) when keys are distinct; the recommended state is Figure 33 for every own data set, Ebest, Erbest and prior state, with statime's deviation for LISTENING ports. An explicit counter-example shows the figures are intransitive without GM-consistency. The instance-level statement (port states and parent/current/time-properties data sets after each BMCA run are those the figures and Tables 30-33 prescribe for the qualified masters) is the executable oracle ok_C05, computed from the figure-level specification and evaluated in Coq on implementation traces.",
+    "text": "Proved in Coq, for all data sets and candidate lists of any length: ds_compare never hits its unreachable arm and returns the outcome of the independently written Figures 34/35; on GM-consistent candidates not sent by the receiver's own clock the comparison is a lexicographic total order, so the selected Erbest/Ebest is a candidate, is not worse than any other candidate, and is independent of the presentation order (Permutation) when keys are distinct; the recommended state is Figure 33 for every own data set, Ebest, Erbest and prior state, with statime's deviation for LISTENING ports. An explicit counter-example shows the figures are intransitive without GM-consistency. The instance-level statement (port states and parent/current/time-properties data sets after each BMCA run are those the figures and Tables 30-33 prescribe for the qualified masters) is the executable oracle ok_C05, computed from the figure-level specification and evaluated in Coq on implementation traces; C05_main proves that this oracle accepts the model's own trace for every valid set-up and every valid event list (coupling MainC05.cp5 between every port's foreign-master list and the oracle's candidates; Erbest and Ebest are the pairwise winners by C05_condorcet_winner_selected, which needs neither transitivity nor grandmaster consistency), so a disagreement between implementation and oracle is always also a disagreement between implementation and model.",
     "design_ref": "DESIGN.md section 6 (C05)",
-    "level_note": "Theorems are about Port/Bmc.v vs Port/BmcaSpec.v (closed under the global context). BmcaSpec.v is the author's reading of IEEE 1588-2019 Figures 33-35 (the standard's text is not available in the sandbox). The M1/M2 time-properties constants are statime's choice (adopted, see DESIGN). Data set update tables are checked through the oracle and C11's lemmas; the dead-assertion lemmas for master-only ports are part of C03.",
+    "level_note": "The oracle judges a BMCA run only when every master a port has heard announced at least twice since the previous run, no Announce bore the clock's own identity, no sequence id moved backwards or by 2^15 in total, at most eight masters were heard on a port and the figure-level comparison has a pairwise winner (stated in OracleC05.v; other runs are skipped, not excused). Theorems are about Port/Bmc.v vs Port/BmcaSpec.v (closed under the global context). BmcaSpec.v is the author's reading of IEEE 1588-2019 Figures 33-35 (the standard's text is not available in the sandbox). The M1/M2 time-properties constants are statime's choice (adopted, see DESIGN). Data set update tables are checked through the oracle and C11's lemmas; the dead-assertion lemmas for master-only ports are part of C03.",
 }
 
 S = portcheck.make(
